@@ -112,6 +112,7 @@ LATENT_Z = {
 Z_CYCLE = [0.71, -1.13, 0.32, -0.44, 1.58, -0.23, 0.94, -1.37, 0.05, 1.21, -0.67, 0.49, -1.92, 0.18, -0.81, 1.03, -0.29]
 U_CYCLE = [0.31, 0.62, 0.12, 0.83, 0.47, 0.94, 0.05, 0.55, 0.26, 0.71, 0.38]
 
+HIGH_U_SCRIPT = 9
 N_SWEEPS = 6
 ACC_WINDOW = 2  # acceptation_history_length of the directly driven samplers: 3 adaptations of the scale in 6 sweeps
 # short acceptance window: the per-individual proposal scales are adapted 4 times within the 8 iterations
@@ -140,9 +141,11 @@ def bounds(tier):
         return {"terms": "all 85 ordered cohorts of size <= 3 of 5 individuals x 3 modifications of the complement of every focal member, all 12 model kinds",
                 "sampler": "ordered cohorts <= 3 of 4 individuals, same modifications, %d model kinds, 2 scripts of draws; 3 kinds again with the "
                            "aggressive tuning (scale adapted after every sweep, x1.9 / x0.1)" % len(QUICK_SAMPLER_MODELS),
-                "mcmc": "mode/mean posterior, ordered cohorts <= 3 of 4, %d model kinds, 1 script" % len(QUICK_MCMC_MODELS),
+                "mcmc": "mode/mean posterior, ordered cohorts <= 3 of 4, %d model kinds, 1 script; mean posterior under the 'high uniforms' script (sweeps where "
+                        "everything is rejected); mean posterior on a model object fitted earlier in the session on 3 other individuals" % len(QUICK_MCMC_MODELS),
                 "scipy": "ordered cohorts <= 2 of 4 individuals, %d model kinds, start points by individual + plain seeded call (non-joint); "
-                         "4 modifications of the other member (incl. no observed value at all)" % len(QUICK_SCIPY_MODELS),
+                         "4 modifications of the other member (incl. no observed value at all); two cohorts again with an iteration budget of 2 (every optimisation stops "
+                         "on the limit)" % len(QUICK_SCIPY_MODELS),
                 "n_jobs": "{1, 2} on ordered cohorts <= 2 of 3 individuals + every order of the triples (a,b,c), (c,d,e) (every ranking pattern of the "
                           "numbers of visits) + one scrambled cohort of 5, %d model kinds; every public call made twice; start point and result of "
                           "every optimisation recorded inside the worker processes" % len(QUICK_NJOBS_MODELS)}
@@ -302,6 +305,11 @@ class IdEnv(seams.Env):
         return self._rows(Z_CYCLE, 7, call, shape)
 
     def answer_rand(self, call, shape, kwargs):
+        if self.script == HIGH_U_SCRIPT:
+            # nearly every uniform draw is high: a proposal is only accepted when it improves the individual's own
+            # posterior, so whole sweeps in which one individual (or everybody) rejects everything occur
+            rows = self._rows(U_CYCLE, 4, call, shape)
+            return torch.where(rows < 0.1, rows, torch.full_like(rows, 1.0 - 2.0 ** -10))
         return self._rows(U_CYCLE, 4, call, shape)
 
     def answer_shuffle(self, call, lst):
@@ -444,7 +452,16 @@ def _ip_rows(ip, ids, out):
             out["per_id"][i][p] = val[k].detach().clone()
 
 
-def exec_mcmc(model, spec, ids, mods, script=0, algo="mode_posterior", **_):
+PREFIT_IDS = ["e", "d", "c", "b", "a"]
+
+
+def exec_mcmc(model, spec, ids, mods, script=0, algo="mode_posterior", prefit=False, **_):
+    if prefit:
+        # the model object was calibrated earlier in the session, always on the same 3 individuals (fixed data, seeded: the same
+        # parameters in every execution); what the fit leaves in the object belongs to ITS individuals, position by position -
+        # the cohorts of 3 personalised afterwards have the training cohort's size
+        with contextlib.redirect_stdout(io.StringIO()):
+            model.fit(cohort_dataset(spec, PREFIT_IDS[:3], {}), "mcmc_saem", seed=0, n_iter=3, n_burn_in_iter=2, progress_bar=False)
     ds = cohort_dataset(spec, ids, mods)
     out = {"ids": list(ids), "shape": tuple(ds.values.shape), "n_obs": n_observations(spec, ds), "per_id": {i: {} for i in ids}, "totals": {}}
     env = IdEnv(ids, script)
@@ -455,7 +472,16 @@ def exec_mcmc(model, spec, ids, mods, script=0, algo="mode_posterior", **_):
     return out
 
 
-def exec_scipy(model, spec, ids, mods, script=0, draws="by-id", n_jobs=1, **_):
+# solver options of the scipy part: default, and a tiny budget (valid user setting) under which every optimisation stops on
+# the iteration limit - what an individual is given must not depend on what the optimisations before it did
+SCIPY_OPTIONS = {"default": {}, "budget2": {"use_jacobian": False,
+                                            "custom_scipy_minimize_params": {"method": "Powell", "options": {"maxiter": 2, "xtol": 1e-4, "ftol": 1e-4}}}}
+
+
+def exec_scipy(model, spec, ids, mods, script=0, draws="by-id", n_jobs=1, options="default", **_):
+    import copy as _copy
+
+    okw = _copy.deepcopy(SCIPY_OPTIONS[options])
     ds = cohort_dataset(spec, ids, mods)
     out = {"ids": list(ids), "shape": tuple(ds.values.shape), "n_obs": n_observations(spec, ds), "per_id": {i: {} for i in ids}, "totals": {}}
     n_vars = len(ind_var_names(model.state))
@@ -463,9 +489,9 @@ def exec_scipy(model, spec, ids, mods, script=0, draws="by-id", n_jobs=1, **_):
     with contextlib.redirect_stdout(io.StringIO()):
         if draws == "by-id":
             with normal_seam(env):
-                ip = model.personalize(ds, "scipy_minimize", progress_bar=False, seed=0, n_jobs=n_jobs)
+                ip = model.personalize(ds, "scipy_minimize", progress_bar=False, seed=0, n_jobs=n_jobs, **okw)
         else:
-            ip = model.personalize(ds, "scipy_minimize", progress_bar=False, seed=int(script), n_jobs=n_jobs)
+            ip = model.personalize(ds, "scipy_minimize", progress_bar=False, seed=int(script), n_jobs=n_jobs, **okw)
     _ip_rows(ip, ids, out)
     if draws == "by-id" and spec["kind"] != "joint" and env.n["n"] == 0:
         # (the joint model starts from the first visit / the event time, without any draw)
@@ -894,6 +920,14 @@ def shards(tier, seed):
             for s in ((scripts[:1] + scripts[-1:] if m in QUICK_MCMC_MODELS else scripts[:1]) if thorough else scripts[-1:]):
                 out.append({"part": "mcmc", "model": m, "algo": algo, "pool": IDS if thorough else IDS[:4], "kmax": 3, "script": s,
                             "subsets": "every" if thorough else "all-others", "tier": tier})
+    # mean_posterior under the "high uniforms" script (sweeps in which everything is rejected), and both algorithms on a model
+    # object fitted in the session on a cohort of the same size
+    for m in ((QUICK_MCMC_MODELS if thorough else QUICK_MCMC_MODELS[:1])):
+        out.append({"part": "mcmc", "model": m, "algo": "mean_posterior", "pool": IDS[:4] if thorough else IDS[:3], "kmax": 3 if thorough else 2,
+                    "script": HIGH_U_SCRIPT, "subsets": "all-others", "tier": tier})
+        for algo in ("mean_posterior", "mode_posterior") if thorough else ("mean_posterior",):
+            out.append({"part": "mcmc", "model": m, "algo": algo, "pool": IDS[:3], "kmax": 3, "script": scripts[0], "prefit": True,
+                        "subsets": "all-others", "tier": tier})
     # scipy_minimize: one shard per unordered cohort (its orders, its modifications, its singletons)
     pool = IDS if thorough else IDS[:4]
     kmax = 3 if thorough else 2
@@ -905,6 +939,9 @@ def shards(tier, seed):
                         continue  # the joint model starts from the data, without any draw: its seeded pass is the by-id pass
                     out.append({"part": "scipy", "model": m, "members": list(comb), "draws": draws, "subsets": "all-others",
                                 "script": 0 if draws == "by-id" else int(seed), "tier": tier})
+                    if draws == "by-id" and (thorough or (m == QUICK_SCIPY_MODELS[0] and comb in (("a", "b"), ("b", "c")))):
+                        out.append({"part": "scipy", "model": m, "members": list(comb), "draws": draws, "subsets": "all-others",
+                                    "script": 0, "options": "budget2", "tier": tier})
     for m in (THOROUGH_NJOBS_MODELS if thorough else QUICK_NJOBS_MODELS):
         if thorough:
             cohorts = ordered_cohorts(IDS[:4], 2) + NJOBS_TRIPLES + [["d", "b", "a"], ["e", "a", "b"]] + NJOBS_FIVES
@@ -923,14 +960,14 @@ def shards(tier, seed):
 
 def case_of(shard, ids, mods):
     c = {"part": shard["part"], "model": shard["model"], "ids": list(ids), "mods": dict(mods)}
-    for k in ("script", "algo", "draws", "tuning"):
+    for k in ("script", "algo", "draws", "tuning", "options", "prefit"):
         if k in shard:
             c[k] = shard[k]
     return c
 
 
 def runner_of(case):
-    kw = {k: case[k] for k in ("script", "algo", "draws", "tuning") if k in case}
+    kw = {k: case[k] for k in ("script", "algo", "draws", "tuning", "options", "prefit") if k in case}
     return Runner(case["part"], case["model"], **kw)
 
 
@@ -939,7 +976,7 @@ def record(acc, runner, case, probs, info):
     ids, mods = case["ids"], case["mods"]
     if len(ids) > 1:
         acc.nontriv(repr((case["part"], case.get("algo"), case["model"], tuple(ids), tuple(sorted(mods.items())), case.get("script"), case.get("draws"),
-                          case.get("tuning"))))
+                          case.get("tuning"), case.get("options"), case.get("prefit"))))
     out = info["out"]
     part = case["part"]
     if out is not None and "exc" in out:
